@@ -51,45 +51,46 @@ Proof.
 Qed.
 
 Lemma nextI l0 l :
-  Inv l -> Rel l0 l ->
+  Inv l -> Rel l0 l -> ch l <> 0 \/ getch src (offset l - 2) = 92 ->
   okr (fun l' => Inv l' /\ Rel l0 l' /\ offset l <= offset l' /\ (ch l <> 0 -> offset l' = offset l + 1))
       (next src l).
 Proof.
-  intros Hi (Hx & Ho).
+  intros Hi (Hx & Ho) Hpre.
   eapply okr_weaken; [apply next_inv; eassumption|].
   intros l' (Hi' & Hx' & Ho' & Ho1 & _). unfold Rel. splits; try assumption; try congruence; lia.
 Qed.
 
 Lemma next_then {A} (Q : A -> Prop) l0 l m (K : lexer -> lres A) :
-  Inv l -> Rel l0 l -> m <= offset l ->
+  Inv l -> Rel l0 l -> m <= offset l -> ch l <> 0 \/ getch src (offset l - 2) = 92 ->
   (forall l2, Inv l2 -> Rel l0 l2 -> m <= offset l2 -> okr Q (K l2)) ->
   okr Q (lbind (next src l) K).
 Proof.
-  intros Hi Hr Hm HK. eapply okr_bind; [apply (nextI l0 l Hi Hr)|].
+  intros Hi Hr Hm Hpre HK. eapply okr_bind; [apply (nextI l0 l Hi Hr Hpre)|].
   intros l2 (Hi2 & Hr2 & Ho2 & _). apply HK; try assumption. lia.
 Qed.
 
 Lemma next_then1 {A} (Q : A -> Prop) l0 l (K : lexer -> lres A) :
   Inv l -> Rel l0 l -> ch l <> 0 ->
-  (forall l2, Inv l2 -> Rel l0 l2 -> offset l + 1 <= offset l2 -> okr Q (K l2)) ->
+  (forall l2, Inv l2 -> Rel l0 l2 -> offset l2 = offset l + 1 -> okr Q (K l2)) ->
   okr Q (lbind (next src l) K).
 Proof.
-  intros Hi Hr Hnz HK. eapply okr_bind; [apply (nextI l0 l Hi Hr)|].
-  intros l2 (Hi2 & Hr2 & _ & Ho2). apply HK; try assumption. specialize (Ho2 Hnz). lia.
+  intros Hi Hr Hnz HK. eapply okr_bind; [apply (nextI l0 l Hi Hr (or_introl Hnz))|].
+  intros l2 (Hi2 & Hr2 & _ & Ho2). apply HK; try assumption. exact (Ho2 Hnz).
 Qed.
 
 (* ---- unread ------------------------------------------------------------------------------ *)
 Lemma unread_spec l :
   W l -> 2 <= offset l -> (xl l = false -> Norm l) -> plain (getch src (offset l - 2)) ->
   okr (fun l' => W l' /\ offset l' = offset l - 1 /\ (xl l' = false -> Norm l') /\
-                 xl l' = (xl l || (ch l =? 10) || (ch l =? 13)) /\ ch l' = getch src (offset l - 2))
+                 xl l' = (xl l || (ch l =? 10) || (ch l =? 13)) /\ ch l' = getch src (offset l - 2) /\
+                 over l' = over l)
       (unread src l).
 Proof.
   intros (Hb & Hc) H2 Hn Hpl. unfold unread.
   replace (offset l - 1 - 1) with (offset l - 2) by lia.
   destruct (index_ok src (offset l - 2)) as (c & Hi); [lia|]. rewrite Hi. cbn [of_res lbind].
   pose proof (getch_index _ _ _ Hi) as Hg. rewrite Hg in Hpl.
-  apply okr_ret. cbn [offset ch lpos npos xl]. splits; try lia; try reflexivity; try congruence.
+  apply okr_ret. cbn [offset ch lpos npos xl over]. splits; try lia; try reflexivity; try congruence.
   - split; cbn [offset ch]; [lia|]. replace (offset l - 1 - 1) with (offset l - 2) by lia. congruence.
   - intros Hx. assert (Hx0 : xl l = false) by lia.
     assert (Hpc : plain (ch l)) by (unfold plain; lia).
@@ -113,7 +114,7 @@ Lemma skip_while_spec cond :
       (skip_while src fuel cond l).
 Proof.
   intros Hcond. induction fuel as [|f IH]; intros l0 l Hn Hr Hf.
-  - exfalso. destruct Hn as ((Hb & _) & _). lia.
+  - exfalso. pose proof (NormInv_bounds _ _ Hn). lia.
   - cbn [skip_while]. destruct (cond (ch l)) eqn:Ec.
     + eapply okr_bind; [apply (nextN l0 l Hn Hr (Hcond _ Ec))|].
       intros l1 (Hn1 & Hr1 & Ho1 & _ & Ht1).
@@ -133,7 +134,7 @@ Lemma skip_digits_spec :
       (skip_digits src fuel got l).
 Proof.
   induction fuel as [|f IH]; intros got l0 l Hn Hr Hf.
-  - exfalso. destruct Hn as ((Hb & _) & _). lia.
+  - exfalso. pose proof (NormInv_bounds _ _ Hn). lia.
   - cbn [skip_digits]. destruct (is_digit (ch l)) eqn:Ec.
     + eapply okr_bind; [apply (nextN l0 l Hn Hr (is_digit_nz _ Ec))|].
       intros l1 (Hn1 & Hr1 & Ho1 & _).
@@ -151,7 +152,7 @@ Lemma skip_ws_spec :
   okr (fun w => NormInv (ws_state w) /\ Rel l0 (ws_state w)) (skip_ws src fuel l).
 Proof.
   induction fuel as [|f IH]; intros l0 l Hn Hr Hf.
-  - exfalso. destruct Hn as ((Hb & _) & _). lia.
+  - exfalso. pose proof (NormInv_bounds _ _ Hn). lia.
   - cbn [skip_ws].
     destruct ((ch l =? 32) || (ch l =? 9) || (ch l =? 13) || (ch l =? 92)) eqn:Ews.
     + assert (Hnz : ch l <> 0) by lia.
@@ -179,14 +180,17 @@ Qed.
 (* ---- parseString: Inv-level (next may be called at the end of input) -------------------- *)
 Definition str_state (o : str_out) : lexer := match o with StrErr _ l => l | StrOk _ l => l end.
 
+Lemma hex_digit_nz c : 0 <= hex_digit c -> c <> 0.
+Proof. unfold hex_digit, is_digit. intros H ->. cbn in H. lia. Qed.
+
 Lemma hex_loop_spec : forall n r l0 l, Inv l -> Rel l0 l ->
   okr (fun rl => Inv (snd rl) /\ Rel l0 (snd rl) /\ offset l <= offset (snd rl)) (hex_loop src n r l).
 Proof.
   induction n as [|n IH]; intros r l0 l Hi Hr; cbn [hex_loop].
   - apply okr_ret. cbn [snd]. splits; try assumption; lia.
-  - destruct (hex_digit (ch l) <? 0).
+  - destruct (hex_digit (ch l) <? 0) eqn:Eh.
     + apply okr_ret. cbn [snd]. splits; try assumption; lia.
-    + eapply okr_bind; [apply (nextI l0 l Hi Hr)|]. intros l1 (Hi1 & Hr1 & Ho1 & _).
+    + eapply okr_bind; [apply (nextI l0 l Hi Hr); left; apply hex_digit_nz; lia|]. intros l1 (Hi1 & Hr1 & Ho1 & _).
       eapply okr_weaken; [apply (IH _ l0 l1 Hi1 Hr1)|]. intros rl (? & ? & ?). splits; try assumption; lia.
 Qed.
 
@@ -195,8 +199,8 @@ Lemma oct_loop_spec : forall n c l0 l, Inv l -> Rel l0 l ->
 Proof.
   induction n as [|n IH]; intros c l0 l Hi Hr; cbn [oct_loop].
   - apply okr_ret. cbn [snd]. splits; try assumption; lia.
-  - destruct ((48 <=? ch l) && (ch l <=? 55)).
-    + eapply okr_bind; [apply (nextI l0 l Hi Hr)|]. intros l1 (Hi1 & Hr1 & Ho1 & _).
+  - destruct ((48 <=? ch l) && (ch l <=? 55)) eqn:Eo.
+    + eapply okr_bind; [apply (nextI l0 l Hi Hr); left; lia|]. intros l1 (Hi1 & Hr1 & Ho1 & _).
       eapply okr_weaken; [apply (IH _ l0 l1 Hi1 Hr1)|]. intros rl (? & ? & ?). splits; try assumption; lia.
     + apply okr_ret. cbn [snd]. splits; try assumption; lia.
 Qed.
@@ -208,7 +212,7 @@ Lemma parse_string_spec :
   okr (SP l0) (parse_string src fuel quote chars l).
 Proof.
   induction fuel as [|f IH]; intros quote chars l0 l Hi Hr Hf.
-  - exfalso. destruct Hi as ((Hb & _) & _). lia.
+  - exfalso. destruct (Inv_W _ _ Hi) as (Hb & _). lia.
   - cbn [parse_string].
     destruct ((ch l =? quote) || (ch l =? 0)) eqn:Eq.
     { apply okr_ret. split; assumption. }
@@ -219,39 +223,44 @@ Proof.
               okr (SP l0) (parse_string src f q cs l')).
     { intros q cs l' Hi' Hr' Ho'. apply IH; try assumption. lia. }
     assert (Hfin : forall q cs l1, Inv l1 -> Rel l0 l1 -> offset l + 1 <= offset l1 ->
+              ch l1 <> 0 \/ getch src (offset l1 - 2) = 92 ->
               okr (SP l0) (dol l2 <- next src l1; parse_string src f q cs l2)).
-    { intros q cs l1 Hi1 Hr1 Ho1. apply (next_then _ l0 l1 (offset l + 1)); try assumption.
+    { intros q cs l1 Hi1 Hr1 Ho1 Hpre1. apply (next_then _ l0 l1 (offset l + 1)); try assumption.
       intros; apply Hrec; assumption. }
     destruct (negb (ch l =? 92)) eqn:Ebs.
-    { apply (next_then1 _ l0 l); try assumption. intros; apply Hrec; assumption. }
+    { apply (next_then1 _ l0 l); try assumption. intros; apply Hrec; try assumption; lia. }
     apply (next_then1 _ l0 l); try assumption. intros l1 Hi1 Hr1 Ho1.
+    assert (Ho1' : offset l + 1 <= offset l1) by lia.
+    (* the byte before the current one is the backslash *)
+    assert (Hbs : getch src (offset l1 - 2) = 92).
+    { destruct (Inv_W _ _ Hi) as (_ & Hc). replace (offset l1 - 2) with (offset l - 1) by lia. lia. }
     cbv zeta.
-    destruct (ch l1 =? 110); [apply Hfin; assumption|].
-    destruct (ch l1 =? 116); [apply Hfin; assumption|].
-    destruct (ch l1 =? 114); [apply Hfin; assumption|].
-    destruct (ch l1 =? 97); [apply Hfin; assumption|].
-    destruct (ch l1 =? 98); [apply Hfin; assumption|].
-    destruct (ch l1 =? 102); [apply Hfin; assumption|].
-    destruct (ch l1 =? 118); [apply Hfin; assumption|].
-    destruct (ch l1 =? 120).
-    { apply (next_then _ l0 l1 (offset l + 1)); try assumption. intros l2 Hi2 Hr2 Ho2.
-      destruct (hex_digit (ch l2) <? 0); [apply okr_ret; split; assumption|].
-      apply (next_then _ l0 l2 (offset l + 1)); try assumption. intros l3 Hi3 Hr3 Ho3.
-      destruct (hex_digit (ch l3) >=? 0); [apply Hfin; assumption|apply Hrec; assumption]. }
-    destruct (ch l1 =? 117).
-    { apply (next_then _ l0 l1 (offset l + 1)); try assumption. intros l2 Hi2 Hr2 Ho2.
-      destruct (hex_digit (ch l2) <? 0); [apply okr_ret; split; assumption|].
-      apply (next_then _ l0 l2 (offset l + 1)); try assumption. intros l3 Hi3 Hr3 Ho3.
+    destruct (ch l1 =? 110) eqn:E1; [apply Hfin; try assumption; left; lia|].
+    destruct (ch l1 =? 116) eqn:E2; [apply Hfin; try assumption; left; lia|].
+    destruct (ch l1 =? 114) eqn:E3; [apply Hfin; try assumption; left; lia|].
+    destruct (ch l1 =? 97) eqn:E4; [apply Hfin; try assumption; left; lia|].
+    destruct (ch l1 =? 98) eqn:E5; [apply Hfin; try assumption; left; lia|].
+    destruct (ch l1 =? 102) eqn:E6; [apply Hfin; try assumption; left; lia|].
+    destruct (ch l1 =? 118) eqn:E7; [apply Hfin; try assumption; left; lia|].
+    destruct (ch l1 =? 120) eqn:E8.
+    { apply (next_then _ l0 l1 (offset l + 1)); try assumption; [left; lia|]. intros l2 Hi2 Hr2 Ho2.
+      destruct (hex_digit (ch l2) <? 0) eqn:Eh2; [apply okr_ret; split; assumption|].
+      apply (next_then _ l0 l2 (offset l + 1)); try assumption; [left; apply hex_digit_nz; lia|]. intros l3 Hi3 Hr3 Ho3.
+      destruct (hex_digit (ch l3) >=? 0) eqn:Eh3; [apply Hfin; try assumption; left; apply hex_digit_nz; lia|apply Hrec; assumption]. }
+    destruct (ch l1 =? 117) eqn:E9.
+    { apply (next_then _ l0 l1 (offset l + 1)); try assumption; [left; lia|]. intros l2 Hi2 Hr2 Ho2.
+      destruct (hex_digit (ch l2) <? 0) eqn:Eh2; [apply okr_ret; split; assumption|].
+      apply (next_then _ l0 l2 (offset l + 1)); try assumption; [left; apply hex_digit_nz; lia|]. intros l3 Hi3 Hr3 Ho3.
       eapply okr_bind; [apply (hex_loop_spec 7 _ l0 l3 Hi3 Hr3)|].
       intros (r', l4) (Hi4 & Hr4 & Ho4). cbn [snd] in *.
       destruct (negb (valid_rune_of_int r')); [apply okr_ret; split; assumption|].
       apply Hrec; try assumption. lia. }
-    destruct ((48 <=? ch l1) && (ch l1 <=? 55)).
-    { apply (next_then _ l0 l1 (offset l + 1)); try assumption. intros l2 Hi2 Hr2 Ho2.
+    destruct ((48 <=? ch l1) && (ch l1 <=? 55)) eqn:E10.
+    { apply (next_then _ l0 l1 (offset l + 1)); try assumption; [left; lia|]. intros l2 Hi2 Hr2 Ho2.
       eapply okr_bind; [apply (oct_loop_spec 2 _ l0 l2 Hi2 Hr2)|].
       intros (c', l3) (Hi3 & Hr3 & Ho3). cbn [snd] in *.
       apply Hrec; try assumption. lia. }
-    apply Hfin; assumption.
+    apply Hfin; try assumption. right; exact Hbs.
 Qed.
 
 (* ---- the regex body ---------------------------------------------------------------------- *)
@@ -264,7 +273,7 @@ Lemma regex_loop_spec :
   okr (RP l0) (regex_loop src fuel chars l).
 Proof.
   induction fuel as [|f IH]; intros chars l0 l Hi Hr Hf.
-  - exfalso. destruct Hi as ((Hb & _) & _). lia.
+  - exfalso. destruct (Inv_W _ _ Hi) as (Hb & _). lia.
   - cbn [regex_loop].
     destruct (ch l =? 47) eqn:E47.
     { apply okr_ret. unfold RP; cbn [rx_state]. splits; try assumption; lia. }
@@ -275,16 +284,15 @@ Proof.
     assert (Hnz : ch l <> 0) by lia.
     destruct (ch l =? 92) eqn:Ebs.
     + apply (next_then1 _ l0 l); try assumption. intros l1 Hi1 Hr1 Ho1. cbv zeta.
-      apply (next_then _ l0 l1 (offset l + 1)); try assumption. intros l2 Hi2 Hr2 Ho2.
+      apply (next_then _ l0 l1 (offset l + 1)); try assumption; try lia.
+      { right. destruct (Inv_W _ _ Hi) as (_ & Hc). replace (offset l1 - 2) with (offset l - 1) by lia. lia. }
+      intros l2 Hi2 Hr2 Ho2.
       apply IH; try assumption. lia.
     + apply (next_then1 _ l0 l); try assumption. intros l1 Hi1 Hr1 Ho1.
       apply IH; try assumption. lia.
 Qed.
 
 (* ---- the exponent of a number, with its un-reads ---------------------------------------- *)
-Lemma NormInv_W l : NormInv l -> W l.
-Proof. intros (H & _); exact H. Qed.
-
 (* a dangling exponent at offset j that is followed by a line end: e or E, an optional sign,
    then CR or LF *)
 Definition eol (c : Z) : Prop := c = 10 \/ c = 13.
@@ -300,12 +308,12 @@ Lemma scan_exponent_spec fuel l :
       (scan_exponent src fuel l).
 Proof.
   intros Hn He Hf. unfold scan_exponent.
-  assert (H1 : 1 <= offset l) by (destruct Hn as (_ & H & _); exact H).
+  assert (H1 : 1 <= offset l) by (pose proof (NormInv_bounds _ _ Hn); lia).
   assert (Hnz : ch l <> 0) by lia.
   eapply okr_bind; [apply (nextN l l Hn (Rel_refl l) Hnz)|].
   intros l1 (Hn1 & (Hx1 & _) & Ho1 & _). cbv zeta.
-  pose proof (NormInv_W _ Hn) as (Hb & Hc).
-  pose proof (NormInv_W _ Hn1) as (Hb1 & Hc1).
+  pose proof (NormInv_W _ _ Hn) as (Hb & Hc).
+  pose proof (NormInv_W _ _ Hn1) as (Hb1 & Hc1).
   destruct ((ch l1 =? 43) || (ch l1 =? 45)) eqn:Esg.
   - (* a sign was read *)
     eapply okr_bind; [apply (nextN l l1 Hn1); [split; [assumption|lia]|lia]|].
@@ -315,17 +323,19 @@ Proof.
     destruct g; cbn [negb].
     + apply okr_ret. splits; try assumption; try lia; try congruence; try (intros; left; congruence).
     + destruct Hg as [Hg|(_ & ->)]; [discriminate|].
-      pose proof (NormInv_W _ Hn2) as Hw2.
+      pose proof (NormInv_W _ _ Hn2) as Hw2.
       eapply okr_bind.
-      { apply (unread_spec l2 Hw2); [lia|apply Hn2|].
+      { apply (unread_spec l2 Hw2); [lia|apply (NormInv_norm _ _ Hn2)|].
         replace (offset l2 - 2) with (offset l1 - 1) by lia. rewrite <- Hc1. unfold plain; lia. }
-      intros l4 (Hw4 & Ho4 & Hn4 & Hx4 & Hc4).
+      intros l4 (Hw4 & Ho4 & Hn4 & Hx4 & Hc4 & Hov4).
       eapply okr_weaken.
       { apply (unread_spec l4 Hw4); [lia|exact Hn4|].
         replace (offset l4 - 2) with (offset l - 1) by lia. rewrite <- Hc. unfold plain; lia. }
-      intros l5 (Hw5 & Ho5 & Hn5 & Hx5 & _).
-      pose proof (NormInv_W _ Hn2) as (_ & Hc2).
-      splits; try lia. { split; [assumption|]. split; [lia|assumption]. }
+      intros l5 (Hw5 & Ho5 & Hn5 & Hx5 & _ & Hov5).
+      pose proof (NormInv_W _ _ Hn2) as (_ & Hc2).
+      splits; try lia.
+      { split; [split; [assumption|]; split; [lia|assumption]|].
+        unfold OverOK. rewrite Hov5, Hov4. apply Hn2. }
       intros Hx5t.
       destruct (xl l) eqn:Exl; [left; reflexivity|right]. split; [lia|].
       unfold dangling_eol, eol. rewrite <- Hc.
@@ -341,10 +351,12 @@ Proof.
     + apply okr_ret. splits; try assumption; try lia; try congruence; try (intros; left; congruence).
     + destruct Hg as [Hg|(_ & ->)]; [discriminate|].
       eapply okr_weaken.
-      { apply (unread_spec l1 (conj Hb1 Hc1)); [lia|apply Hn1|].
+      { apply (unread_spec l1 (conj Hb1 Hc1)); [lia|apply (NormInv_norm _ _ Hn1)|].
         replace (offset l1 - 2) with (offset l - 1) by lia. rewrite <- Hc. unfold plain; lia. }
-      intros l5 (Hw5 & Ho5 & Hn5 & Hx5 & _).
-      splits; try lia. { split; [assumption|]. split; [lia|assumption]. }
+      intros l5 (Hw5 & Ho5 & Hn5 & Hx5 & _ & Hov5).
+      splits; try lia.
+      { split; [split; [assumption|]; split; [lia|assumption]|].
+        unfold OverOK. rewrite Hov5. apply Hn1. }
       intros Hx5t.
       destruct (xl l) eqn:Exl; [left; reflexivity|right]. split; [lia|].
       unfold dangling_eol, eol. rewrite <- Hc.
